@@ -222,7 +222,7 @@ class Check:
         why: str,
         witness: str = "",
     ) -> Ob:
-        line = node if isinstance(node, int) else getattr(node, "lineno", 0) or 0
+        line = node if isinstance(node, int) else getattr(node, "_orig_lineno", None) or getattr(node, "lineno", 0) or 0
         o = Ob(rule, module, function, construct, verdict, line, why, witness)
         self.obs.append(o)
         self.functions_analysed.add(f"{module}:{function}")
